@@ -37,6 +37,8 @@ SimSetup sim_setup(const Args& a) {
   s.cfg.stay = (int)a.i("stay", 50);
   s.cfg.ownBias = (int)a.i("own", 70);
   s.cfg.syncRate = a.d("sync", 0.0);
+  s.cfg.hotSite = (int)a.i("hot", 0);
+  s.cfg.hotRate = a.d("hotrate", 0.0);
   s.cfg.mode = (int)a.i("mode", 0);
   s.cfg.pctDepth = (int)a.i("pctd", 2);
   s.cfg.pctLen = a.u("pctlen", 2000);
